@@ -473,6 +473,9 @@ impl Runner {
             .collect();
         let results: Mutex<Vec<(Stats, Option<(C, String)>)>> = Mutex::new(Vec::new());
         let part_seed = mix(self.seed, str_hash(name) ^ str_hash(&self.id));
+        let first_reported = AtomicBool::new(false);
+        let id_str = self.id.clone();
+        let seed_v = self.seed;
         std::thread::scope(|s| {
             for w in 0..nthreads {
                 let stop = &stop;
@@ -480,6 +483,8 @@ impl Runner {
                 let decode = &decode;
                 let test = &test;
                 let known_sigs = &known_sigs;
+                let first_reported = &first_reported;
+                let id_str = &id_str;
                 std::thread::Builder::new()
                     .stack_size(WORKER_STACK)
                     .spawn_scoped(s, move || {
@@ -548,6 +553,20 @@ impl Runner {
                             }
                             match v.fail {
                                 Some(f) if known_hit.is_none() => {
+                                    // report the first failing case at once (before shrinking): if re-executing it during
+                                    // shrinking takes the whole process down (a dangling node that reads as a 16 GiB
+                                    // atom, a stack overflow), the violation line and a replay file already exist
+                                    if !*failed.borrow() && !first_reported.swap(true, Ordering::SeqCst) {
+                                        let path = format!("{VERIF_ROOT}/build/out/{id_str}-{seed_v}-first-{name}.json");
+                                        let j = json!({"property": id_str, "part": name, "message": format!("(first failing case, not shrunk) {}", f.msg), "case": &case});
+                                        let _ = std::fs::create_dir_all(format!("{VERIF_ROOT}/build/out"));
+                                        if std::fs::write(&path, serde_json::to_string_pretty(&j).unwrap_or_default()).is_ok() {
+                                            println!("VIOLATION property={id_str} replay={path}");
+                                            println!("  part={name} (first failing case, before shrinking) {}", f.msg.chars().take(600).collect::<String>());
+                                            use std::io::Write;
+                                            let _ = std::io::stdout().flush();
+                                        }
+                                    }
                                     *failed.borrow_mut() = true;
                                     *fail_msg.borrow_mut() = f.msg.clone();
                                     Err(TestCaseError::fail(f.msg))
